@@ -945,6 +945,8 @@ def check_lambda_evaluates_every_time(repo, rep):
 
 
 def run(repo, rep):
+    from sa import resmodel
+    resmodel.install(repo, rep)
     rep.rule('R11a', 'ONE-SWEEP: in choose_overload eager arguments are '
              'evaluated by exactly one index-ordered traversal of the '
              'positional and one of the keyword arguments, outside every '
@@ -977,8 +979,8 @@ def run(repo, rep):
     rep.extra_cov['evaluation_sites'] = [
         '%s: %s' % (fi.key, model.norm(c)) for fi, c in sites]
     rep.floor('expression evaluation sites', len(sites), 9)
-    check_r11a(repo, rep)
-    check_lazy_keys(repo, rep)
+    resmodel.guarded(repo, rep, 'R11a', check_r11a, repo, rep)
+    resmodel.guarded(repo, rep, 'R11f', check_lazy_keys, repo, rep)
     check_lambda_evaluates_every_time(repo, rep)
     check_r11b(repo, rep, uni)
     check_r11c(repo, rep, uni)
